@@ -46,6 +46,62 @@ def gen_add(ctx):
     return out
 
 
+def gen_tangent_line_family(ctx):
+    """F2 family: every control point of the first curve lies on the line x = c (a folded straight segment of degree 2-3);
+    the second curve has one END point on that line and is otherwise strictly to its right, so the two control boxes are
+    tangent along x = c and all common points are (s_i, end) with y_A(s_i) = y0: certified by Sturm isolation."""
+    rng = ctx.rng
+    out = []
+    tries = 0
+    want = 12 if ctx.quick() else 300
+    while len(out) < want and tries < 200 * want:
+        tries += 1
+        na, nb = rng.randint(2, 3), rng.randint(1, 3)
+        c = F(rng.randint(-2, 2))
+        ya = [F(rng.randint(-4, 4)) for _ in range(na + 1)]
+        y0 = F(rng.randint(-8, 8), 2)
+        bx = [c] + [c + rng.randint(1, 4) for _ in range(nb)]
+        by = [y0] + [F(rng.randint(-4, 4)) for _ in range(nb)]
+        end = rng.choice([0, 1])
+        if end == 1:
+            bx.reverse(); by.reverse()
+        pw = io.oq.to_power(ya)
+        pw[0] -= y0
+        pw = io.ptrim(pw)
+        if len(pw) < 2 or len(io.pgcd(pw, io.pderiv(pw))) > 1 or io.peval(pw, F(0)) == 0 or io.peval(pw, F(1)) == 0:
+            continue
+        roots = []
+        ok = True
+        for lo, hi in io.roots_in(pw, F(0), F(1)):
+            s_ = (lo + hi) / 2
+            if s_ < F(1, 2 ** 10) or 1 - s_ < F(1, 2 ** 10):
+                ok = False
+            roots.append(s_)
+        if not ok or not roots or any(abs(a - b) < F(1, 2 ** 12) for a in roots for b in roots if a != b):
+            continue
+        # crossing angle: A is vertical there, B leaves its end point with direction d
+        d = (bx[1] - bx[0], by[1] - by[0]) if end == 0 else (bx[-1] - bx[-2], by[-1] - by[-2])
+        if d[0] * d[0] * 2 ** 14 < d[0] * d[0] + d[1] * d[1]:
+            continue
+        out.append({"c1": [[c] * (na + 1), ya], "c2": [bx, by], "expected": [(r, F(end)) for r in roots], "family": "tangent-line"})
+    return out
+
+
+def known_f2(c, op, cfg, raw):
+    if c.get("family") != "tangent-line" or "exc" in raw:
+        return None
+    arr = dec_res(raw["ok"])
+    got = list(zip(arr[0], arr[1])) if arr and len(arr) == 2 and arr[0] else []
+    # the signature covers DROPPED crossings of this family only: everything reported must be one of the certified crossings
+    for g in got:
+        if not any(abs(g[0] - e[0]) <= TOL and abs(g[1] - e[1]) <= TOL for e in c["expected"]):
+            return None
+    if len(got) < len(c["expected"]):
+        return ("F2 crossings are dropped when the two control boxes are tangent along a line that contains EVERY control point of one "
+                "curve (a folded straight segment of degree >= 2): only end-point pairs are compared")
+    return None
+
+
 def run(ctx):
     prove(ctx, DEPS)
     ic.correspond_lines(ctx, n_quick=150)
@@ -63,6 +119,14 @@ def run(ctx):
     cases = ic.gen_line_curve(ctx, n)
     sweep(ctx, "certified_line_curve_crossings_found_exactly_once", cases,
           [("Curve.intersect", ic.intersect_args("GEOMETRIC"))], judge_c03)
+    cc = ic.gen_curve_curve(ctx, 60 if ctx.quick() else 1500)
+    sweep(ctx, "certified_curve_curve_crossings_found_exactly_once", cc,
+          [("Curve.intersect", ic.intersect_args("GEOMETRIC"))], judge_c03)
+    kinds = {}
+    for c in cc:
+        k = (c["kind"], len(c["expected"]))
+        kinds[str(k)] = kinds.get(str(k), 0) + 1
+    ctx.corr["sweep:certified_curve_curve_crossings_found_exactly_once"]["distribution(kind, crossings)"] = kinds
     # disjoint boxes -> empty
     dis = []
     for c in ic.gen_planted(ctx, 40 if ctx.quick() else 800):
@@ -70,6 +134,8 @@ def run(ctx):
         c2 = [[x + shift for x in c["c2"][0]], c["c2"][1]]
         dis.append({"c1": c["c1"], "c2": c2, "expected": []})
     sweep(ctx, "disjoint_boxes_give_empty_result", dis, [("Curve.intersect", ic.intersect_args("GEOMETRIC"))], judge_c03)
+    sweep(ctx, "tangent_boxes_along_a_line_containing_one_curve", gen_tangent_line_family(ctx),
+          [("Curve.intersect", ic.intersect_args("GEOMETRIC"))], judge_c03, known=known_f2)
     return finish(ctx, "PROVED: what can never go wrong - disjoint control boxes imply no common point (every degree, over R, from the "
                   "convex-hull theorem of C01); two non-parallel segments give exactly their crossing (regenerated check_lines); the "
                   "de-duplication rule never merges pairs farther apart than 2^-36 sqrt 2 and always merges an exact repeat (hand model "
@@ -78,4 +144,4 @@ def run(ctx):
                   "simple, separated and well conditioned by exact Sturm isolation, both configurations",
                   unproved=["convergence of the subdivision / Newton pipeline to each crossing (support sweep)",
                             "candidate pruning above 64 pairs and the 20-round budget",
-                            "tangent-box handling drops crossings when a whole curve lies in the tangency line (finding F2, not reproduced by the sweep)"])
+                            "tangent-box handling drops crossings when a whole curve lies in the tangency line (known finding F2; certified family swept)"])
